@@ -10,6 +10,7 @@ PROPS = {
     'C06': 'rsym.props.c06',
     'C14': 'rsym.props.c14',
     'C15': 'rsym.props.c15',
+    'C16': 'rsym.props.c16',
     'C18': 'rsym.props.c18',
     'C24': 'rsym.props.c24',
     'C25': 'rsym.props.c25',
